@@ -130,12 +130,24 @@ func ZZ_C07_retention() {
 	rs.Status.Current = nondet.Int32("current", 0, 100000)
 	rs.Status.Ready = nondet.Int32("ready", 0, 100000)
 	rs.Status.Available = nondet.Int32("available", 0, 100000)
+	// other conditions the replica set may carry (a canary that failed while paused keeps both), in
+	// either order: only the instant it FAILED counts
+	otherFirst := nondet.Bool("pausedCond.listedFirst")
+	pausedPresent := nondet.Bool("pausedCond.present")
+	pausedAt := nondet.TimeNs("pausedAt", -zzTenYears, zzTenYears)
+	pausedTrue := nondet.Bool("pausedCond.true")
+	if pausedPresent && otherFirst {
+		zzSetCond(rs, datadoghqv1alpha1.ConditionTypeCanaryPaused, pausedTrue, pausedAt)
+	}
 	failed := nondet.Bool("failed")
 	failedAt := nondet.TimeNs("failedAt", -zzTenYears, zzTenYears)
 	if nondet.Bool("failedCond.present") {
 		zzSetCond(rs, datadoghqv1alpha1.ConditionTypeCanaryFailed, failed, failedAt)
 	} else {
 		failed = false
+	}
+	if pausedPresent && !otherFirst {
+		zzSetCond(rs, datadoghqv1alpha1.ConditionTypeCanaryPaused, pausedTrue, pausedAt)
 	}
 	del := shouldDeleteERS(now, rs)
 	empty := nondet.And(rs.Status.Desired == 0, rs.Status.Current == 0, rs.Status.Ready == 0, rs.Status.Available == 0)
